@@ -37,6 +37,9 @@ pub fn builder_for(cfg: &Cfg, seed: u64, tick: Duration) -> turmoil::Builder {
         if cfg.page_cache {
             f.page_cache();
         }
+        if let Some(cap) = cfg.capacity {
+            f.capacity(cap);
+        }
     }
     b
 }
